@@ -148,7 +148,7 @@ def gen_cases(chk):
     # observed: SZ_compress_customize("SZ") with a parameter block of its own (it initialises the library with that block and compresses): the block
     # is the configuration of the pair, whatever was initialised, compressed or left behind before
     for k in range(40 if thorough else 12):
-        cfg = rng.choice(CFGS)
+        cfg = rng.choice(CFGS[2:])
         h = gen_history(rng, 6, threadsafe=0.15)
         tok, _ = gen_compress(rng, "c")
         f = tok.split(":")
@@ -220,7 +220,8 @@ def run(chk):
     model = lib.build_model()
     cases = gen_cases(chk)
     hist = ["hist %s %s %s" % (cfg, "/".join(h) or "_", obs) for cfg, h, obs in cases]
-    fresh = ["hist %s _ %s" % (cfg, obs.split(" ")[0]) for cfg, h, obs in cases]
+    # the fresh process of a `U` pair starts from another configuration than the history's: the pair's configuration is its own block
+    fresh = ["hist %s _ %s" % (cfg if obs[0] != "U" else ("-" if cfg != "-" else "szMode=SZ_BEST_SPEED;errorBoundMode=REL;relBoundRatio=1E-2"), obs.split(" ")[0]) for cfg, h, obs in cases]
     ho = lib.run_cases(exe, hist, timeout=3000)
     fo = lib.run_cases(exe, fresh, timeout=3000)
     mcases, midx, mexp = [], [], []
